@@ -350,6 +350,16 @@ def run_unit(unit, tier):
                 core.bump(res['outcomes'], 'markers:' + ('ok' if not viols else 'violation'))
                 res['violations'].extend(viols[:1])
         res['samples'] = [{'marker spellings': 8}]
+        for line in PARAM_LINES + ['MaxTime = 4']:
+            for position in ('first', 'last', 'after-marker'):
+                for trailing in (False, True):
+                    dig.add(('params', line, position, trailing))
+                    v = check_param_line(line, position, trailing)
+                    res['evaluations'] += 1
+                    res['nontrivial'] += 1
+                    core.bump(res['outcomes'], 'params:' + ('ok' if not v else 'violation'))
+                    if v:
+                        res['violations'].append(v)
     else:
         base = model_series('', '')
         for desc in HOSTILE + ['# Exogenous Variables', 'MaxTime = 1']:
@@ -380,8 +390,38 @@ def run_unit(unit, tier):
     return res
 
 
+PARAM_LINES = ['MaxTime = 2.5', 'MaxTime = 1e-3', 'MaxTime = 7.999', 'MaxTime = CAT', 'MaxTime = 3 4', 'MaxTime = 2.0', 'MaxTime = 0x10']
+
+
+def check_param_line(line, position, trailing):
+    """A run-parameter line whose value is not an integer literal is malformed: refused with an exception or named in the
+    parser's message - never read as some other horizon."""
+    case = {'part': 'params', 'line': line, 'position': position, 'trailing': trailing}
+    body = ['x = .5*x + 1', 'y = x + 1']
+    l = line + ('  # horizon' if trailing else '')
+    lines = [l] + body if position == 'first' else (body + [l] if position == 'last' else body + ['exogenous', 'g = [1., 2., 3.]', l])
+    p = EquationParser()
+    try:
+        msg = p.ParseString('\n'.join(lines))
+    except Exception:
+        return None                      # refused
+    value = line.split('=')[1].strip()
+    if value in (msg or ''):
+        return None                      # reported
+    try:
+        ok = (str(int(value)) == value)
+    except ValueError:
+        ok = False
+    if ok and p.MaxTime == int(value):
+        return None
+    return core.violation('malformed-run-parameter-silently-read', 'line %r gave MaxTime = %r with the message %r' % (line, p.MaxTime, (msg or '')[:80]), case)
+
+
 def replay(case):
     part = case['part']
+    if part == 'params':
+        v = check_param_line(case['line'], case['position'], case['trailing'])
+        return [v] if v else []
     if part == 'orders':
         return full_check(build_text(case['order'], case['spacing'], case['lag']), case, solve=True)[:1]
     if part == 'comments':
